@@ -140,6 +140,13 @@ def _atom_regex(atom, root):
             return v.wrap("%s%s*" % (re.escape(c), v.dot))
         if hi is None and lo == ("const", -len(c)):
             return v.wrap("%s*%s" % (v.dot, re.escape(c)))
+        if isinstance(lo, tuple) and isinstance(hi, tuple) \
+                and lo[0] == "const" and hi[0] == "const" \
+                and isinstance(lo[1], int) and isinstance(hi[1], int) \
+                and 0 <= lo[1] and hi[1] - lo[1] == len(c):
+            # x[a:b] == c with len(c) == b - a
+            return v.wrap("%s{%d}%s%s*" % (v.dot, lo[1], re.escape(c),
+                                           v.dot))
         return None
     if kind == "eq" and _is_const_str(atom[2]):
         v = _view(atom[1], root)
@@ -161,14 +168,71 @@ def _const_chars(atom, out):
             _const_chars(x, out)
 
 
+def _subject(atom):
+    """The term an atom observes (before views are peeled), or None."""
+    kind = atom[0]
+    if kind == "contains" and _is_const_str(atom[1]):
+        t = atom[2]
+        if isinstance(t, tuple) and t and t[0] == "call" and isinstance(
+                t[1], tuple) and t[1][0] == "attr" and t[1][2] == "split" \
+                and len(t[2]) == 1:
+            return t[1][1]
+        return t
+    if kind == "truthy":
+        t = atom[1]
+        if isinstance(t, tuple) and t and t[0] == "call" and isinstance(
+                t[1], tuple) and t[1][0] == "attr" \
+                and t[1][2] in ("startswith", "endswith"):
+            return t[1][1]
+        return t
+    if kind == "eq" and _is_const_str(atom[2]):
+        t = atom[1]
+        if isinstance(t, tuple) and t and t[0] == "slice" and len(t) == 4:
+            return t[1]
+        return t
+    return None
+
+
+def _root_of(atom):
+    """The string variable an atom is about: its subject with the
+    split(sep, 1)[k] view peeled off."""
+    x = _subject(atom)
+    if x is None or not isinstance(x, tuple):
+        return None
+    if x and x[0] == "index" and len(x) == 3 and isinstance(x[1], tuple) \
+            and x[1] and x[1][0] == "call" and isinstance(x[1][1], tuple) \
+            and x[1][1][0] == "attr" and x[1][1][2] == "split":
+        return x[1][1][1]
+    return x
+
+
 def translatable(atom):
-    """Does `atom` observe exactly one parameter, through a form this module
-    reads as a regular language?"""
-    ps = set()
-    _params_in(atom, ps)
-    if len(ps) != 1:
+    """Does `atom` observe one string variable (a parameter, or any one
+    term) through a form this module reads as a regular language?"""
+    r = _root_of(atom)
+    if r is None or _is_const_str(r):
         return False
-    return _atom_regex(atom, next(iter(ps))) is not None
+    return _atom_regex(atom, r) is not None
+
+
+def _shares(a, root):
+    """Does atom `a` mention the root or anything the root is made of (a
+    parameter, an attribute of self)?"""
+    if _mentions(a, root):
+        return True
+    parts = set()
+
+    def leaves(t):
+        if isinstance(t, tuple):
+            if t and t[0] in ("param", "self"):
+                parts.add(t)
+            elif t and t[0] == "attr" and len(t) == 3 and t[1] == ("self",):
+                parts.add(t)
+            else:
+                for x in t:
+                    leaves(x)
+    leaves(root)
+    return any(_mentions(a, p) for p in parts)
 
 
 def joint_witness(val_a, val_b):
@@ -185,25 +249,28 @@ def joint_witness(val_a, val_b):
             merged.append((a, v))
     roots = set()
     for a, _ in merged:
-        ps = set()
-        _params_in(a, ps)
-        if len(ps) == 1 and _atom_regex(a, next(iter(ps))) is not None:
-            roots |= ps
+        if translatable(a):
+            roots.add(_root_of(a))
     if not roots:
         return None
+    general = [r for r in roots if not (len(r) == 2 and r[0] == "param")]
+    # several variables, not all of them inputs: they may be related, so
+    # only an empty language of one of them (infeasible) is concluded
+    inconclusive = bool(general) and len(roots) > 1
     out = {}
-    for root in sorted(roots):
-        mine = [(a, v) for a, v in merged if _mentions(a, root)]
+    for root in sorted(roots, key=repr):
+        mine = [(a, v) for a, v in merged if _shares(a, root)]
         chars = set()
         regs = []
+        related = False
         for a, v in mine:
-            ps = set()
-            _params_in(a, ps)
-            if ps != {root}:
-                return None
-            r = _atom_regex(a, root)
+            r = _atom_regex(a, root) if _root_of(a) == root else None
             if r is None:
-                return None
+                # an observation related to the variable that is not read as
+                # a language: leaving it out only enlarges the language, so
+                # "infeasible" stays sound and "feasible" is not concluded
+                related = True
+                continue
             _const_chars(a, chars)
             regs.append((r, v))
         chars.discard("\n")
@@ -215,5 +282,12 @@ def joint_witness(val_a, val_b):
         w = lang.witness()
         if w is None:
             return False
-        out["P%d" % root[1]] = w
+        if related:
+            inconclusive = True
+        if len(root) == 2 and root[0] == "param":
+            out["P%d" % root[1]] = w
+        else:
+            out["<string observed>"] = w
+    if inconclusive:
+        return None
     return out
